@@ -14,6 +14,7 @@ use text_size::{TextRange, TextSize};
 pub struct C13;
 
 pub const ALPHA: &[&str] = &["a", "\n", "\r\n", "é", "ℝ", "💣"];
+const EXTRA_CHARS: &[&str] = &["д", "\u{7ff}", "\u{800}", "\u{10000}"];
 
 #[derive(Clone, Debug)]
 pub struct Edit {
@@ -43,9 +44,18 @@ pub fn edit_from_json(v: &Value) -> Edit {
 /// Run open + edits through the hook exactly the way on_did_change does, comparing with the
 /// client model after every edit.  All edits must be valid in the model (the caller's duty).
 pub fn run_history(ctx: &mut Ctx, open: &str, edits: &[Edit]) -> Result<(), Failure> {
-    let case = json!({"open": open, "edits": edits.iter().map(edit_json).collect::<Vec<_>>()});
+    run_history_pre(ctx, open, edits, None)
+}
+
+/// `previous`: what the store held for the path before the editor opened the document
+/// (the file had been loaded from disk with another content).
+pub fn run_history_pre(ctx: &mut Ctx, open: &str, edits: &[Edit], previous: Option<&str>) -> Result<(), Failure> {
+    let case = json!({"open": open, "previous": previous, "edits": edits.iter().map(edit_json).collect::<Vec<_>>()});
     let mut model = ClientDoc::new(open);
     let mut vfs = Vfs::new();
+    if let Some(p) = previous {
+        vfs.set_path_content(VfsPath::new("/d/src/a.gleam"), p.to_string());
+    }
     let file = vfs.set_path_content(VfsPath::new("/d/src/a.gleam"), open.to_string());
     let got = vfs.content_for_file(file);
     if *got != *model.server_view() {
@@ -136,7 +146,12 @@ pub fn gen_edit(c: &mut Choices, doc: &ClientDoc) -> Edit {
         let n = c.weighted(&[3, 5, 3, 2, 1]);
         let mut s = String::new();
         for _ in 0..n {
-            s.push_str(["a", "\n", "\r\n", "é", "ℝ", "💣", "b ", "fn f() { 1 }"][c.below(8)]);
+            let k = c.below(10);
+            if k < 8 {
+                s.push_str(["a", "\n", "\r\n", "é", "ℝ", "💣", "b ", "fn f() { 1 }"][k]);
+            } else {
+                s.push_str(EXTRA_CHARS[c.below(EXTRA_CHARS.len())]);
+            }
         }
         s
     };
@@ -147,6 +162,96 @@ pub fn gen_edit(c: &mut Choices, doc: &ClientDoc) -> Edit {
     let i = c.below(ps.len());
     let j = if c.chance(100) { i } else { i + c.below((ps.len() - i).min(6)) };
     Edit { range: Some((ps[i].0, ps[j].0)), text }
+}
+
+/// Black-box tier: one real server per history; `disk`: None = file absent on disk,
+/// Some(text) = what the file contains on disk when it is opened.
+pub fn run_history_lsp(ctx: &mut Ctx, open: &str, disk: Option<&str>, notes: &[Vec<Edit>]) -> Result<(), Failure> {
+    run_history_lsp_pre(ctx, open, disk, notes, false)
+}
+
+/// `preload`: another document of the project is opened first, so that the project (and with it
+/// the on-disk text of the document under test) is already loaded when the editor opens it.
+pub fn run_history_lsp_pre(ctx: &mut Ctx, open: &str, disk: Option<&str>, notes: &[Vec<Edit>], preload: bool) -> Result<(), Failure> {
+    use crate::engine::lsp::*;
+    use std::time::Duration;
+    let case = json!({"lsp": true, "preload": preload, "open": open, "disk": disk, "notifications": notes.iter().map(|n| n.iter().map(edit_json).collect::<Vec<_>>()).collect::<Vec<_>>()});
+    let wd = WorkDir::new("c13");
+    wd.write("gleam.toml", "name = \"app\"\nversion = \"1.0.0\"\n");
+    let file = wd.path.join("src/a.gleam");
+    std::fs::create_dir_all(wd.path.join("src")).ok();
+    if let Some(d) = disk {
+        std::fs::write(&file, d).ok();
+    }
+    let uri = uri_of(&file);
+    let mut lsp = Lsp::spawn(&wd.path, &[]).map_err(|e| Failure::new(format!("cannot start glas: {e}"), case.clone()).sig("kind", "harness"))?;
+    if !lsp.initialize(&wd.path) {
+        let f = Failure::new(format!("server did not answer initialize; stderr: {}", clip(&lsp.stderr(), 300)), case.clone()).sig("kind", "harness");
+        lsp.kill();
+        return Err(f);
+    }
+    let mut model = ClientDoc::new(open);
+    if preload {
+        let other = wd.write("src/other.gleam", "pub fn other() { 1 }\n");
+        lsp.did_open(&uri_of(&other), "pub fn other() { 1 }\n");
+        let _ = lsp.syntax_tree(&uri_of(&other), Duration::from_secs(20));
+    }
+    lsp.did_open(&uri, open);
+    let mut check = |lsp: &mut Lsp, model: &ClientDoc, what: String| -> Result<(), Failure> {
+        let want = expected_tree(&model.server_view());
+        match lsp.syntax_tree(&uri, Duration::from_secs(20)) {
+            Some(r) => match r.get("result").and_then(|x| x.as_str()) {
+                Some(got) if got == want => Ok(()),
+                Some(got) => Err(Failure::new(
+                    format!("{}: the server's syntax tree is not the tree of the editor's text {:?} (first difference: {})", what, clip(&model.text, 200), first_diff(got, &want)),
+                    case.clone(),
+                )
+                .sig("kind", "diverged")
+                .sig("disk", match disk { None => "absent", Some(d) if d == open => "same", Some(_) => "different" })),
+                None => Err(Failure::new(format!("{}: glas/syntaxTree answered {}", what, clip(&r.to_string(), 300)), case.clone()).sig("kind", "no-tree")),
+            },
+            None => Err(Failure::new(format!("{}: no answer to glas/syntaxTree (server alive: {}); stderr: {}", what, lsp.alive(), clip(&lsp.stderr(), 300)), case.clone()).sig("kind", "no-answer")),
+        }
+    };
+    let mut res = check(&mut lsp, &model, "after didOpen".into());
+    if res.is_ok() {
+        for (ni, note) in notes.iter().enumerate() {
+            let mut changes = vec![];
+            for e in note {
+                match e.range {
+                    None => {
+                        model.text = e.text.clone();
+                        changes.push(json!({"text": e.text}));
+                    }
+                    Some((s, t)) => {
+                        if !model.apply(s, t, &e.text) {
+                            ctx.excluded("generator produced an invalid edit");
+                            lsp.kill();
+                            return Ok(());
+                        }
+                        changes.push(json!({"range": {"start": {"line": s.line, "character": s.col}, "end": {"line": t.line, "character": t.col}}, "text": e.text}));
+                    }
+                }
+            }
+            ctx.eval();
+            lsp.notify("textDocument/didChange", json!({"textDocument": {"uri": uri, "version": ni + 2}, "contentChanges": changes}));
+            res = check(&mut lsp, &model, format!("after didChange #{} ({} changes)", ni, note.len()));
+            if res.is_err() {
+                break;
+            }
+        }
+    }
+    lsp.kill();
+    res
+}
+
+fn first_diff(a: &str, b: &str) -> String {
+    let i = a.bytes().zip(b.bytes()).take_while(|(x, y)| x == y).count();
+    let mut s = i.saturating_sub(30);
+    while !a.is_char_boundary(s) || !b.is_char_boundary(s) {
+        s -= 1;
+    }
+    format!("server `…{}` vs expected `…{}`", clip(&a[s..], 80).replace('\n', "⏎"), clip(&b[s..], 80).replace('\n', "⏎"))
 }
 
 impl Property for C13 {
@@ -161,6 +266,9 @@ impl Property for C13 {
             "lone CR (not followed by LF) is outside the property's domain (line breaks are LF or CRLF) and never generated".into(),
             "in-process tiers replay the per-change calls on_did_change makes (convert::from_range + Vfs::change_file_content); the notification loop itself is covered by the black-box tier".into(),
         ]
+    }
+    fn max_shards(&self) -> usize {
+        16
     }
     fn run(&self, ctx: &mut Ctx) {
         let max_len = ctx.tier.pick(4, 5);
@@ -198,7 +306,7 @@ impl Property for C13 {
         ctx.space("single edits: documents x position pairs x replacements", space);
         ctx.stats.nt_disjoint += local.len() as u64;
 
-        let cases = ctx.tier.pick(20_000, 400_000);
+        let cases = ctx.tier.pick(150_000, 3_000_000);
         ctx.run_streams("c13-history", cases, 200, |ctx, bytes| {
             let mut c = Choices::new(bytes);
             let n0 = c.below(12);
@@ -221,7 +329,12 @@ impl Property for C13 {
                 multi |= !e.text.is_ascii() || e.text.contains('\r');
                 edits.push(e);
             }
-            run_history(ctx, &open, &edits)?;
+            // structurally different (other line starts, other multi-byte columns), not an extension
+            let previous = if c.chance(90) { Some(format!("💣д\n\nprev\n{}", open.chars().rev().collect::<String>())) } else { None };
+            run_history_pre(ctx, &open, &edits, previous.as_deref())?;
+            if previous.is_some() {
+                ctx.class("document opened over a different on-disk content");
+            }
             if multi || !open.is_ascii() {
                 ctx.nontrivial(hash_str(&format!("{:?}{:?}", open, edits)));
             }
@@ -232,10 +345,66 @@ impl Property for C13 {
             ctx.sample("history", || json!({"open": clip(&open, 80), "edits": edits.iter().take(6).map(edit_json).collect::<Vec<_>>()}));
             Ok(())
         });
+        // (c) the same kind of histories against the real server
+        if !std::path::Path::new(&crate::engine::lsp::glas_bin()).exists() {
+            ctx.inconclusive.push(format!("glas binary not found at {} (run through ./check)", crate::engine::lsp::glas_bin()));
+            return;
+        }
+        let lsp_cases = ctx.tier.pick(1_200, 20_000);
+        ctx.run_streams("c13-lsp", lsp_cases, 160, |ctx, bytes| {
+            let mut c = Choices::new(bytes);
+            let n0 = c.below(10);
+            let mut open = String::new();
+            for _ in 0..n0 {
+                open.push_str(["a", "\n", "\r\n", "é", "ℝ", "💣", "pub fn main() {", "}"][c.below(8)]);
+            }
+            let disk_kind = c.weighted(&[3, 3, 2]);
+            let other = if c.chance(128) { format!("{}// on disk\n", open) } else { format!("// 💣д on disk\n\n{}", open.chars().rev().filter(|ch| *ch != '\r').collect::<String>()) };
+            let disk = match disk_kind {
+                0 => None,
+                1 => Some(open.as_str()),
+                _ => Some(other.as_str()),
+            };
+            let mut model = ClientDoc::new(&open);
+            let nn = 1 + c.below(8);
+            let mut notes = vec![];
+            for _ in 0..nn {
+                let k = 1 + c.weighted(&[5, 3, 2]);
+                let mut note = vec![];
+                for _ in 0..k {
+                    let e = gen_edit(&mut c, &model);
+                    match e.range {
+                        None => model.text = e.text.clone(),
+                        Some((s, t)) => {
+                            model.apply(s, t, &e.text);
+                        }
+                    }
+                    note.push(e);
+                }
+                notes.push(note);
+            }
+            let preload = c.chance(100);
+            run_history_lsp_pre(ctx, &open, disk, &notes, preload)?;
+            if preload {
+                ctx.class("project already loaded when the document is opened");
+            }
+            ctx.class("history against the real server");
+            ctx.class(match disk_kind { 0 => "disk: file absent", 1 => "disk: same text", _ => "disk: different text (unsaved buffer)" });
+            if notes.iter().any(|n| n.len() >= 2) {
+                ctx.class("notification with >= 2 content changes");
+                ctx.nontrivial(hash_str(&format!("lsp{:?}{:?}", open, notes)));
+            }
+            ctx.sample("lsp history", || json!({"open": clip(&open, 60), "disk": disk_kind, "notifications": notes.len()}));
+            Ok(())
+        });
     }
     fn replay(&self, ctx: &mut Ctx, case: &Value) -> Result<(), Failure> {
+        if case["lsp"].as_bool() == Some(true) {
+            let notes: Vec<Vec<Edit>> = case["notifications"].as_array().map(|a| a.iter().map(|n| n.as_array().map(|x| x.iter().map(edit_from_json).collect()).unwrap_or_default()).collect()).unwrap_or_default();
+            return run_history_lsp_pre(ctx, case["open"].as_str().unwrap_or(""), case["disk"].as_str(), &notes, case["preload"].as_bool().unwrap_or(false));
+        }
         let open = case["open"].as_str().unwrap_or("");
         let edits: Vec<Edit> = case["edits"].as_array().map(|a| a.iter().map(edit_from_json).collect()).unwrap_or_default();
-        run_history(ctx, open, &edits)
+        run_history_pre(ctx, open, &edits, case["previous"].as_str())
     }
 }
